@@ -20,6 +20,13 @@ const J2: c12::CShape = c12::CShape { inc: &[1, 2, 4], out: &[1, 2, 3], lrn: &[]
 // RawNode scenarios
 const RF: Shape = Shape::follower3(3, 0).with_terms(&[1, 2, 3]).with_term(5).with_commit(1).with_applied(1).with_persisted(3).with_flags(false, false, false);
 const RF0: Shape = Shape::follower3(3, 0).with_terms(&[1, 2, 3]).with_term(5).with_commit(0).with_applied(0).with_persisted(3).with_flags(false, false, false);
+const RS1L_LEADER: Shape = Shape::follower3(3, 0).with_role(StateRole::Leader).with_conf(&[1], &[], &[2], &[], false).with_terms(&[1, 2, 5]).with_term(5).with_commit(3).with_applied(3).with_persisted(3).with_flags(false, false, false).with_peers(&[PeerShape::replicate(2, 4, 0).matched(3)]);
+const RL_ASYNC_SKIP: Shape = Shape::follower3(3, 0).with_role(StateRole::Leader).with_terms(&[1, 2, 2]).with_term(2).with_flags(false, false, true).with_commit(1).with_applied(1).with_persisted(1).with_peers(&[PeerShape::probe(2, 2).matched(1), PeerShape::replicate(3, 4, 0).matched(3)]);
+const FC22: Shape = Shape::follower3(2, 0).with_base(2).with_terms(&[1, 2, 2]).with_term(5).with_commit(2).with_applied(2).with_persisted(2).with_flags(false, false, false);
+const F30_REQ: Shape = Shape::follower3(3, 0).with_terms(&[1, 2, 5]).with_term(5).with_commit(2).with_flags(false, false, false);
+const F30_REQ_OLD: Shape = Shape::follower3(3, 0).with_terms(&[1, 2, 3]).with_term(5).with_commit(2).with_flags(false, false, false);
+const L21_XFER_PART: Shape = L21S.with_commit(1).with_persisted(2).with_peers(&[PeerShape::replicate(2, 4, 2).matched(1), PeerShape::probe(3, 2).matched(0).paused()]);
+const LJ11_READ: Shape = L21_READ.with_conf(&[1], &[2], &[], &[], false).with_peers(&[PeerShape::replicate(2, 4, 0).matched(3)]);
 const RF_ASYNC: Shape = Shape::follower3(3, 0).with_terms(&[1, 1, 1]).with_term(5).with_commit(1).with_applied(1).with_persisted(1).with_flags(false, false, false);
 const RL: Shape = L21S.with_commit(1).with_applied(1).with_persisted(2).with_peers(&[PeerShape::probe(2, 2).matched(1).paused(), PeerShape::probe(3, 2).matched(0).paused()]);
 const RL_ACTIVE: Shape = L21S.with_commit(1).with_applied(1).with_persisted(2).with_peers(&[PeerShape::replicate(2, 4, 0).matched(3), PeerShape::probe(3, 2).matched(0).paused()]);
@@ -257,6 +264,15 @@ harnesses! {
     { append_rej_hint_walk, "C05,C01,C04,C14", thorough, unwind = 8,
       "one Raft::step(MsgAppend) on a follower (3 voters; log terms [1,2,3] = 2 stable + 1 unstable; symbolic term/vote/leader/commit/applied/persisted/timers/flags; message term, commit, entry types symbolic): prev=(3,2), entry terms [] - reject whose hint walks back over larger terms; post-state compared with a sequence model",
       |s| c05::append_step(s, &F21T, 3, 2, &[], c05::O_REJECT) }
+    { append_below_compaction, "C20,C05,C15", quick, unwind = 8,
+      "follower that compacted its applied log to index 2 (entries 3..=4, commit 4) receives a delayed duplicate MsgAppend anchored at index 1 with entries 2..=4: answered with the commit index, log untouched, no panic on the compacted anchor",
+      |s| c05::append_below_compaction(s, &FC22) }
+    { request_snapshot_ok, "C15,C04,C05", quick, unwind = 8,
+      "follower request_snapshot(): accepted exactly with a known leader, no request pending and a last entry of the current term; the request names the last index (nothing the node acknowledged may be discarded by the unconditional install) and goes to the leader; symbolic leader id / pending request",
+      |s| c15::request_snapshot_step(s, &F30_REQ) }
+    { request_snapshot_old_term, "C15", quick, unwind = 8,
+      "same with a last entry from an older term: dropped",
+      |s| c15::request_snapshot_step(s, &F30_REQ_OLD) }
     { heartbeat_f21, "C05,C04,C01,C16", quick, unwind = 10,
       "one Raft::step(MsgHeartbeat) on a follower: commit rule, echo of context, log untouched, stale-term reply rule",
       |s| c05::heartbeat_step(s, &F21) }
@@ -328,6 +344,9 @@ harnesses! {
     { appresp_ack_transfer, "C17,C04,C13", quick, unwind = 8,
       "leader with a pending transfer to peer 2: ack of the last index (3) -> MsgTimeoutNow only now, to the target only",
       |s| c04::appresp_step(s, &L21_XFER, 2, 3, false, 0, 0, true, false) }
+    { appresp_ack_transfer_partial, "C17,C04,C13", quick, unwind = 8,
+      "leader with a pending transfer to peer 2 whose remaining entries are all in flight (next = last+1, matched 1): an ack of index 2 < last must not trigger MsgTimeoutNow",
+      |s| c04::appresp_step(s, &L21_XFER_PART, 2, 2, false, 0, 0, true, true) }
     { appresp_ack_joint_no, "C04,C12", quick, unwind = 8,
       "leader in joint config {1,2,3}&&{1,3,4}: ack from 2 gives a majority of the incoming half only -> must not commit",
       |s| c04::appresp_step(s, &L21_JOINT, 2, 2, false, 0, 0, false, false) }
@@ -474,6 +493,15 @@ harnesses! {
     { rn_async_snapshot, "C07,C15,C06", quick, unwind = 8,
       "RawNode follower, asynchronous persistence of a snapshot Ready (index 5): nothing counts as persisted before the notice; after it persisted = applied base = 5 and nothing is handed out twice",
       |s| rawnode::cycle_async(s, &RnShape::of(RF), &Input::snapshot(5, 5, 4)) }
+    { rn_singleton_learner_stepdown_recampaign, "C06,C02,C05", quick, unwind = 8,
+      "RawNode single voter + learner, leader with everything persisted: told of a higher term by a vote request it grants, then campaigns and wins again at once, all before the next Ready: that Ready persists the new term and vote, so neither the grant nor the new leader's append may be released ahead of it",
+      |s| rawnode::cycle(s, &RnShape::of(RS1L_LEADER), &Input::vote(7), &Input::HUP) }
+    { rn_leader_commit_only, "C07,C04", quick, unwind = 8,
+      "RawNode leader with skip_bcast_commit and an in-flight (unpersisted) Ready covering 2..=3: a follower's ack makes a quorum for 3 -> only the commit index changes (nothing to send, nothing persisted to hand out): has_ready() must be true, the Ready carries exactly the hard state; after persistence the entries are handed out",
+      |s| rawnode::cycle(s, &RnShape::of(RL_ASYNC_SKIP).records(&[(1, Some((3, 2)), None)], 1), &Input::appresp(2, 3), &Input::NONE) }
+    { rn_restart_applied_ahead, "C07,C06", quick, unwind = 8,
+      "RawNode::new where the configured applied index (2) is ahead of the durable commit index (1) - a commit-only hard-state update need not be synced: the hand-off cursor starts right after the configured applied index",
+      |s| rawnode::restart(s, 0, 3, 1, 2, false) }
     { rn_async_overwrite, "C07,C04,C14,C06,C20", quick, unwind = 8,
       "RawNode follower with an in-flight Ready (entries 2..3 of term 1 written, fsync notice outstanding): a new leader's append overwrites 2..3 (term 2) and commits 3, then the stale notice arrives -> persisted must not move onto the new, unwritten entries; nothing unpersisted is handed out",
       |s| rawnode::async_overwrite(s, &RnShape::of(RF_ASYNC).records(&[(1, Some((3, 1)), None)], 1), &Input::append(5, 1, 1, &[2, 2], 3), 1) }
@@ -587,6 +615,15 @@ harnesses! {
     { read_joint_single_incoming_ack, "C08,C12", quick, unwind = 8,
       "same, with an acknowledgement from 2 (majority of {1,2,3} with self) -> released",
       |s| c08::leader_read(s, &LJ1_READ, 0, &[(2, 7)], true) }
+    { read_joint_one_each, "C08,C12", quick, unwind = 8,
+      "leader in joint config {1}&&{2} (replacing the single voter): no single-voter fast path; released once 2 acknowledged",
+      |s| c08::leader_read(s, &LJ11_READ, 0, &[], false) }
+    { read_joint_one_each_ack, "C08,C12", quick, unwind = 8,
+      "same with the acknowledgement from 2 -> released",
+      |s| c08::leader_read(s, &LJ11_READ, 0, &[(2, 7)], true) }
+    { read_same_ctx_two_origins, "C08,C20", quick, unwind = 8,
+      "leader of 3: the same context requested locally and, while pending, forwarded by follower 3: the duplicate is dropped, queue and pending map stay consistent, later reads are served (no internal check trips)",
+      |s| c08::read_same_ctx_two_origins(s, &L21_READ) }
     { read_forwarded, "C08,C04", quick, unwind = 8,
       "leader of 3: request forwarded by follower 3, ack from 2 -> MsgReadIndexResp to 3 only, nothing in the leader's own read states",
       |s| c08::leader_read(s, &L21_READ, 3, &[(2, 7)], true) }
@@ -1052,6 +1089,12 @@ harnesses! {
     { cc_enter_learner_remove_learner_434, "C12", thorough, unwind = 8,
       "Changer::enter_joint on S3: ['AddLearnerNode', 'RemoveNode', 'AddLearnerNode'] with ids [4, 3, 4] (enter joint: learner added, removed, re-added); auto_leave symbolic; reference-semantics equality, invariants (voters/learners disjoint, staged learners inside outgoing, >=1 voter, progress = members), <=1 voter changed for simple, quorum overlap old/new with two symbolic quorums, reject leaves everything untouched",
       |s| c12::change(s, &S3, 1, &[2, 1, 2], &[&[4, 3, 4]]) }
+    { cc_enter_remove_only_voter, "C12,C09", quick, unwind = 8,
+      "Changer::enter_joint on the single-voter configuration {1}: RemoveNode(1) would leave no incoming voter -> rejected, nothing changes",
+      |s| c12::change(s, &S1, 1, &[1], &[&[1]]) }
+    { cc_enter_demote_all_voters, "C12,C09", quick, unwind = 8,
+      "Changer::enter_joint on {1,2,3}+learner 4: AddLearner(1), AddLearner(2), AddLearner(3) would leave no incoming voter -> rejected",
+      |s| c12::change(s, &S3L, 1, &[2, 2, 2], &[&[1, 2, 3]]) }
     { cc_simple_while_joint, "C12", quick, unwind = 8,
       "Changer::simple on a joint configuration is rejected, tracker untouched",
       |s| c12::change(s, &J2, 0, &[0], &[&[5]]) }
@@ -1190,6 +1233,9 @@ harnesses! {
     { mem_conf_after_snapshot, "C19", quick, unwind = 8,
       "MemStorage: apply_snapshot(3) then set_conf_state: a snapshot taken while commit still equals the snapshot point carries the *stored* configuration",
       |s| c19::script(s, &[c19::snap(3), c19::CS], 4, 3) }
+    { mem_append_prefix_rewrite, "C19", quick, unwind = 8,
+      "MemStorage: append 1..=3, then append of the single entry 2 (possibly identical to the stored one): a truncating overwrite - the log now ends at 2",
+      |s| c19::script(s, &[c19::append(1, 3), c19::append(2, 1)], 1, 3) }
     { mem_stale_snapshot, "C19", quick, unwind = 8,
       "MemStorage: append 1..=3, compact(3), apply_snapshot(1) (below first_index): SnapshotOutOfDate, nothing changes",
       |s| c19::script(s, &[c19::append(1, 3), c19::compact(3), c19::snap(1)], 3, 4) }
